@@ -405,3 +405,51 @@ Corollary merges_indistinguishable fuel n s1 s2 i : i < n -> only i s1 = only i 
 Proof.
   intros Hi E. rewrite !(interleave_alone_init fuel n _ i Hi), E. reflexivity.
 Qed.
+
+(* ---------------------------------------------------------------- merges, and the merge "back to back" *)
+(* sched is a merge of the histories hists (hists[i] = the operations of engine i, in order) *)
+Definition is_merge (n : nat) (hists : list (list op)) (sched : list (nat * op)) : Prop :=
+  forall i, i < n -> map snd (only i sched) = nth i hists [].
+
+Corollary every_merge fuel n hists sched : is_merge n hists sched ->
+  forall i, i < n ->
+  proj i (snd (wrun fuel (init_world n) sched)) = snd (erun n i fuel (nth i hists []) init_engine []).
+Proof. intros M i Hi. rewrite (interleave_alone_init fuel n sched i Hi), (M i Hi). reflexivity. Qed.
+
+(* the whole history of engine k, then the whole history of engine k+1, ... *)
+Fixpoint b2b (k : nat) (hists : list (list op)) : list (nat * op) :=
+  match hists with
+  | [] => []
+  | h :: r => map (pair k) h ++ b2b (S k) r
+  end.
+
+Lemma only_app i a b : only i (a ++ b) = only i a ++ only i b.
+Proof. apply filter_app. Qed.
+Lemma only_map_pair i k (h : list op) : only i (map (pair k) h) = if Nat.eqb k i then map (pair k) h else [].
+Proof.
+  unfold only. induction h as [|o h IH]; simpl; [destruct (Nat.eqb k i); reflexivity|].
+  rewrite IH. destruct (Nat.eqb k i); reflexivity.
+Qed.
+Lemma b2b_only i : forall hists k,
+  map snd (only i (b2b k hists)) = if Nat.leb k i then nth (i - k) hists [] else [].
+Proof.
+  induction hists as [|h r IH]; intros k; cbn [b2b].
+  - destruct (Nat.leb k i); [destruct (i - k)|]; reflexivity.
+  - rewrite only_app, map_app, only_map_pair, IH.
+    destruct (Nat.eqb_spec k i) as [->|N].
+    + rewrite Nat.leb_refl, Nat.sub_diag. destruct (Nat.leb_spec (S i) i); [lia|].
+      rewrite map_map. cbn [snd nth]. rewrite map_id, app_nil_r. reflexivity.
+    + destruct (Nat.leb_spec (S k) i); destruct (Nat.leb_spec k i); try lia; cbn [map app]; auto.
+      replace (i - k) with (S (i - S k)) by lia. reflexivity.
+Qed.
+Lemma b2b_is_merge n hists : is_merge n hists (b2b 0 hists).
+Proof. intros i _. rewrite b2b_only. cbn [Nat.leb]. rewrite Nat.sub_0_r. reflexivity. Qed.
+
+(* every merge of the histories shows each engine what it sees when the histories run back to back *)
+Corollary merge_eq_back_to_back fuel n hists sched : is_merge n hists sched ->
+  forall i, i < n ->
+  proj i (snd (wrun fuel (init_world n) sched)) = proj i (snd (wrun fuel (init_world n) (b2b 0 hists))).
+Proof.
+  intros M i Hi. rewrite (every_merge fuel n hists sched M i Hi).
+  rewrite (every_merge fuel n hists (b2b 0 hists) (b2b_is_merge n hists) i Hi). reflexivity.
+Qed.
